@@ -21,9 +21,9 @@ Definition expand (d : dynar) (nb : nat) : dynar :=
     resize d (if Nat.ltb e nb then nb else e)
   else d.
 
-(** xbt_dynar_insert_at: expand, memmove the tail one cell to the right, store.
-    The C code only checks idx >= 0; for idx > used it writes outside the used part (outside the allocation when
-    idx >= size): that call is outside the domain of the model (None). *)
+(** xbt_dynar_insert_at: xbt_assert(idx <= used) (added by the fix: commit; the pinned code only checked idx >= 0 and
+    for idx > used wrote outside the used part, outside the allocation when idx >= size), expand, memmove the tail
+    one cell to the right, store. *)
 Definition insert_at (d : dynar) (idx : nat) (v : Z) : option dynar :=
   if Nat.ltb (used d) idx then None
   else
